@@ -857,8 +857,104 @@ Section Crypto.
     end.
 End Crypto.
 
+(* ------------------------------------------- verify.go: the message walk *)
+(* internal/dnsname.CompareSuffix: labels shared from the right.  A label is
+   read through its separating dot, the last one to the end of the string. *)
+Fixpoint segs_go (l : list (N * bool)) (cur : list N) : list (list N) :=
+  match l with
+  | [] => [cur]
+  | p :: r =>
+      match r with
+      | [] => [cur ++ [fst p]]
+      | _ => if is_sep p then (cur ++ [fst p]) :: segs_go r [] else segs_go r (cur ++ [fst p])
+      end
+  end.
+Definition segs (s : list N) : list (list N) := segs_go (esc_scan s false) [].
+Fixpoint run_eq (l : list (list N * list N)) : N :=
+  match l with
+  | [] => 0
+  | p :: r => if equal_fold (fst p) (snd p) then 1 + run_eq r else 0
+  end.
+Definition compare_suffix (a b : list N) : N :=
+  if list_eqb a [DOT] || list_eqb b [DOT] then 0 else
+  let sa := segs a in
+  let sb := segs b in
+  let sa' := skipn (length sa - length sb) sa in
+  let sb' := skipn (length sb - length sa) sb in
+  run_eq (rev (combine sa' sb')).
+
+(* isSynthesizedCNAME; a DNAME is (owner, target) *)
+Definition is_synthesized_cname (owner target : list N) (dnames : list (list N * list N)) : bool :=
+  existsb (fun d =>
+    let dl := count_label (fst d) in
+    if (dl =? 0) || (count_label owner <=? dl) then false else
+    let n := compare_suffix (fst d) owner in
+    if negb (n =? dl) then false else
+    equal_fold (fqdn (firstn (N.to_nat (prev_label owner n)) owner ++ snd d)) (fqdn target)) dnames.
+
+(* a message section: records and RRSIGs in order; [valid] is sig.ValidityPeriod(now) *)
+Inductive mitem := MR (r : rr) | MS (s : rrsig) (valid : bool).
+Definition rrs_of (l : list mitem) : list rr := flat_map (fun i => match i with MR r => [r] | MS _ _ => [] end) l.
+Definition sigs_of (l : list mitem) : list (rrsig * bool) := flat_map (fun i => match i with MS s v => [(s, v)] | MR _ => [] end) l.
+Definition rr_target (r : rr) : list N := match r_rdata r with FName n :: _ => n | _ => [] end.
+Definition TYPE_NS : N := 2.
+Definition TYPE_CNAME : N := 5.
+Definition TYPE_RRSIG : N := 46.
+Definition KIND_DNAME : list N := [68; 78; 65; 77; 69].
+Definition KIND_CNAME : list N := [67; 78; 65; 77; 69].
+Definition same_rrset_key (a b : rr) : bool :=
+  list_eqb (to_lower (r_name a)) (to_lower (r_name b)) && (r_type a =? r_type b) && (r_class a =? r_class b).
+Definition sig_covers (zone : list N) (s : rrsig) (r : rr) : bool :=
+  name_in_zone (to_lower (s_name s)) zone
+  && list_eqb (to_lower (s_name s)) (to_lower (r_name r)) && (s_covered s =? r_type r) && (s_class s =? r_class r).
+
+Section Walk.
+  Variable ONE : list rr -> rrsig -> bool -> bool.       (* verifyOneSig(keys, set, sig) == nil *)
+  Variable signer : list N.
+  Variables answer ns : list mitem.
+
+  Definition walk_zone : list N := to_lower (fqdn signer).
+  Definition walk_in_zone (r : rr) : bool := name_in_zone (to_lower (r_name r)) walk_zone.
+  (* DNAMEs of the signer zone, from both sections *)
+  Definition walk_dnames : list (list N * list N) :=
+    map (fun r => (r_name r, rr_target r))
+        (filter (fun r => list_eqb (r_kind r) KIND_DNAME && walk_in_zone r) (rrs_of answer ++ rrs_of ns)).
+  (* records that take part: not RRSIGs, not CNAMEs a DNAME of the zone synthesises *)
+  Definition walk_keep (r : rr) : bool :=
+    negb (r_type r =? TYPE_RRSIG)
+    && negb ((r_type r =? TYPE_CNAME) && list_eqb (r_kind r) KIND_CNAME && is_synthesized_cname (r_name r) (rr_target r) walk_dnames).
+  Definition walk_answer : list rr := filter walk_keep (rrs_of answer).
+  (* authority: NS sets and out-of-zone remnants are left alone *)
+  Definition walk_authority : list rr :=
+    filter (fun r => walk_keep r && negb (r_type r =? TYPE_NS) && walk_in_zone r) (rrs_of ns).
+  Definition walk_records : list rr := walk_answer ++ walk_authority.
+  Definition walk_group (r : rr) : list rr := filter (fun x => same_rrset_key x r) walk_records.
+  Definition walk_sigs : list (rrsig * bool) := sigs_of answer ++ sigs_of ns.
+  Definition walk_group_verified (r : rr) : bool :=
+    existsb (fun sv => if sig_covers walk_zone (fst sv) r then ONE (walk_group r) (fst sv) (snd sv) else false) walk_sigs.
+
+  (* verifyRRSIGWithWork(signer, keys, msg, nil): ok && err == nil, for a non-empty key map *)
+  Definition walk_verdict : bool :=
+    if existsb (fun r => negb (walk_in_zone r)) walk_answer then false
+    else if is_nil walk_records then true
+    else forallb walk_group_verified walk_records.
+End Walk.
+
+Section CryptoWalk.
+  Variable PM : N -> N -> N -> N.
+  Variable H : N -> list N -> list N.
+  Variable ECP : N -> list N -> bool.
+  Variable ECV : N -> list N -> list N -> list N -> bool.
+  Variable EDV : list N -> list N -> list N -> bool.
+  Variable LIBV : dnskey -> rrsig -> list rr -> N.
+  Definition verify_rrsig_pm (signer : list N) (keys : list (N * list dnskey)) (answer ns : list mitem) : bool :=
+    if is_nil keys then false
+    else walk_verdict (fun set s v => verify_one_sig_pm PM H ECP ECV EDV LIBV keys set s v) signer answer ns.
+End CryptoWalk.
+
 (* the model proper: big.Int.Exp is square-and-multiply over N *)
 Definition verify_rsa_signature := verify_rsa_signature_pm powmod.
 Definition verify_signature := verify_signature_pm powmod.
 Definition crypto_verify := crypto_verify_pm powmod.
 Definition verify_one_sig := verify_one_sig_pm powmod.
+Definition verify_rrsig := verify_rrsig_pm powmod.
